@@ -11,7 +11,8 @@ from sa.source import class_assigns
 from sa.props._lib_d import (call_nodes, calls_with, const_value_is, implied, local_def, path_under, peval,
                              reach_under, self_assigns, slice_parts, succ_of, test_value, value_returned)
 from sa.props._lib_d import must_pass_under as _must_pass_under
-from sa.props._lib_d import MiniVM, VMError, VMRaise, VMStub, _NativeRaise
+from sa.props._lib_d import Views
+from sa.props._lib_d import MiniVM, VMError, VMRaise, VMStub, _NativeRaise, resolve_locals
 from sa.source import AnalysisError
 
 PROPERTY = "C16"
@@ -51,6 +52,32 @@ ASSUMPTIONS = [
 Q = "twisted.protocols.basic."
 M = 10  # sample MAX_LENGTH used for boundary evaluation
 
+# methods the rules are written against; any other private method of these classes is a helper introduced later and is analysed as
+# if inlined at its call sites (sa.props._lib_d.Inliner / Views)
+KNOWN = {'protocols/basic.py': {'IntNStringReceiver': ['dataReceived', 'lengthLimitExceeded', 'sendString', 'stringReceived'],
+                        'LineOnlyReceiver': ['dataReceived', 'lineLengthExceeded', 'lineReceived', 'sendLine'],
+                        'LineReceiver': ['clearLineBuffer', 'dataReceived', 'lineLengthExceeded', 'lineReceived', 'rawDataReceived', 'sendLine', 'setLineMode', 'setRawMode'],
+                        'NetstringReceiver': ['_checkForTrailingComma', '_checkPartialLengthSpecification', '_checkStringSize', '_consumeData', '_consumeLength', '_consumePayload',
+                                              '_extractLength', '_extractPayload', '_handleParseError', '_maxLengthSize', '_payloadComplete', '_prepareForPayloadConsumption',
+                                              '_processLength', '_processPayload', 'dataReceived', 'makeConnection', 'sendString', 'stringReceived'],
+                        '_PauseableMixin': ['pauseProducing', 'resumeProducing', 'stopProducing']}}
+
+
+def _views(ctx):
+    v = ctx.__dict__.get("_views_d")
+    if v is None:
+        v = ctx.__dict__["_views_d"] = Views(ctx, KNOWN)
+    return v
+
+
+def _F(ctx, rel, qual):
+    return _views(ctx).f(rel, qual)
+
+
+def _M(ctx, rel, cls_name):
+    return _views(ctx).methods(rel, cls_name)
+
+
 
 def must_pass_under(g, facts, via, srcs=None, to=None):
     """as _lib_d.must_pass_under, and additionally the ``via`` nodes must be reachable at all (a path that
@@ -89,7 +116,7 @@ def _appends_param(st, attr, param):
 
 
 def _line_only(ctx):
-    f = ctx.func(B, "LineOnlyReceiver.dataReceived")
+    f = _F(ctx, B, "LineOnlyReceiver.dataReceived")
     g = ctx.cfg(f)
     q = Q + "LineOnlyReceiver.dataReceived"
     dparam = f.args.args[1].arg
@@ -130,30 +157,17 @@ def _line_only(ctx):
         else:
             w = must_pass_under(g, facts, ex_buf, srcs=tail)
             ctx.check(w is None, "line-only/pending-boundary", c, "a buffer that can no longer become a legal line is not rejected", witness=g.describe(w))
-    # buffering: (old + new).split(delimiter), last piece kept
-    splits = [x for x in walk_local(f) if isinstance(x, ast.Call) and isinstance(x.func, ast.Attribute) and x.func.attr == "split"]
-    ok = False
-    for sp in splits:
-        recv = sp.func.value
-        if isinstance(recv, ast.BinOp) and isinstance(recv.op, ast.Add) and src(recv.left) == "self._buffer" and src(recv.right) == dparam \
-                and len(sp.args) == 1 and src(sp.args[0]) == "self.delimiter":
-            ok = True
-    ctx.check(ok, "line-only/buffer-order", q + " | <split>", "the lines are not split from 'old buffer + new data' by self.delimiter (bytes reordered or lost)")
-    keeps = [n for n in _buffer_writes(g)]
-    kept_ok = False
-    for n in keeps:
-        v = g.node(n).ast.value if isinstance(g.node(n).ast, ast.Assign) else None
-        if isinstance(v, ast.Call) and isinstance(v.func, ast.Attribute) and v.func.attr == "pop" and \
-                (not v.args or const_value_is(v.args[0], lambda x: x == -1)):
-            kept_ok = g.must_precede([n], [head]) is None
-        elif isinstance(v, ast.Subscript) and const_value_is(v.slice, lambda x: x == -1):
-            kept_ok = g.must_precede([n], [head]) is None
-    ctx.check(kept_ok, "line-only/keeps-last-piece", q + " | <pending piece>",
-              "the unterminated last piece of the split is not what is kept in _buffer before the lines are delivered")
+    # the pending piece is stored before the complete lines are handed out.  WHICH bytes are kept and in which order old and new
+    # data are joined is decided by evaluation (line-only/reference-framing, line-only/segmentation-invariant), not by the
+    # shape of the split / pop / slice / starred unpacking that computes it.
+    keeps = _buffer_writes(g)
+    w = g.must_precede(keeps, deliver) if keeps else None
+    ctx.check(bool(keeps) and w is None, "line-only/pending-stored-before-callouts", q + " | <pending piece>",
+              "complete lines are delivered before the unterminated rest of the data is stored back in _buffer", witness=g.describe(w))
 
 
 def _line_receiver(ctx):
-    f = ctx.func(B, "LineReceiver.dataReceived")
+    f = _F(ctx, B, "LineReceiver.dataReceived")
     g = ctx.cfg(f)
     q = Q + "LineReceiver.dataReceived"
     dparam = f.args.args[1].arg
@@ -260,7 +274,7 @@ def _line_receiver(ctx):
                       "_buffer is emptied after the rawDataReceived call-out (data pushed back by setLineMode(extra) is discarded)", witness=g.describe(back))
     with ctx.section("_PauseableMixin"):
         # mixin: pause / resume
-        f2 = ctx.func(B, "_PauseableMixin.resumeProducing")
+        f2 = _F(ctx, B, "_PauseableMixin.resumeProducing")
         g2 = ctx.cfg(f2)
         q2 = Q + "_PauseableMixin.resumeProducing"
         pf = self_assigns(g2, "paused", lambda v: const_value_is(v, lambda x: x is False))
@@ -270,13 +284,13 @@ def _line_receiver(ctx):
                   "resumeProducing() does not re-run dataReceived: data buffered while paused stays undelivered until more arrives", witness=g2.describe(w))
         ctx.check(bool(pf) and all(g2.must_precede(pf, [k]) is None for k in kick), "pause/resume-clears-flag-first", q2,
                   "paused is not cleared before the buffered data is re-processed (nothing would be delivered)")
-        f3 = ctx.func(B, "_PauseableMixin.pauseProducing")
+        f3 = _F(ctx, B, "_PauseableMixin.pauseProducing")
         g3 = ctx.cfg(f3)
         pt = self_assigns(g3, "paused", lambda v: const_value_is(v, lambda x: x is True))
         ctx.check(bool(pt) and g3.must_pass([g3.entry], pt) is None, "pause/sets-flag", Q + "_PauseableMixin.pauseProducing", "pauseProducing() does not set paused")
     with ctx.section("LineReceiver.setLineMode"):
         # mode switches
-        f4 = ctx.func(B, "LineReceiver.setLineMode")
+        f4 = _F(ctx, B, "LineReceiver.setLineMode")
         g4 = ctx.cfg(f4)
         q4 = Q + "LineReceiver.setLineMode"
         ex = f4.args.args[1].arg
@@ -290,7 +304,7 @@ def _line_receiver(ctx):
     with ctx.section("sendLine"):
         # sendLine in both classes
         for cls in ("LineReceiver", "LineOnlyReceiver"):
-            fs = ctx.func(B, f"{cls}.sendLine")
+            fs = _F(ctx, B, f"{cls}.sendLine")
             lp = fs.args.args[1].arg
             ok = False
             for c in (x for x in walk_local(fs) if isinstance(x, ast.Call)):
@@ -303,7 +317,7 @@ def _line_receiver(ctx):
 
 
 def _intn(ctx):
-    f = ctx.func(B, "IntNStringReceiver.dataReceived")
+    f = _F(ctx, B, "IntNStringReceiver.dataReceived")
     g = ctx.cfg(f)
     q = Q + "IntNStringReceiver.dataReceived"
     unp = [(n, c) for n, c in calls_with(g, "unpack", "struct.unpack")]
@@ -403,7 +417,7 @@ def _intn(ctx):
                   witness=g.describe(w))
     # sendString
     with ctx.section("IntNStringReceiver.sendString"):
-        fs = ctx.func(B, "IntNStringReceiver.sendString")
+        fs = _F(ctx, B, "IntNStringReceiver.sendString")
         gs = ctx.cfg(fs)
         qs = Q + "IntNStringReceiver.sendString"
         sparam = fs.args.args[1].arg
@@ -427,7 +441,7 @@ def _intn(ctx):
             ok = False
             if isinstance(a, ast.BinOp) and isinstance(a.op, ast.Add) and src(a.right) == sparam and isinstance(a.left, ast.Call) and call_name(a.left) in ("pack", "struct.pack"):
                 pa = a.left.args
-                ok = len(pa) == 2 and src(pa[0]) == "self.structFormat" and src(pa[1]) == f"len({sparam})"
+                ok = len(pa) == 2 and src(pa[0]) == "self.structFormat" and src(resolve_locals(fs, pa[1])) == f"len({sparam})"
             ctx.check(ok, "intn/format-agreement", ctx.construct(qs, call),
                       "sendString does not write pack(self.structFormat, len(string)) followed by the string (receiver unpacks with self.structFormat)")
     with ctx.section("IntN concrete classes"):
@@ -462,7 +476,7 @@ def _intn(ctx):
                       f"structFormat {fmt_v!r} / prefixLength {pl!r}: the prefix must be an unsigned big-endian integer of exactly prefixLength bytes "
                       "(sendString admits lengths up to 2**(8*prefixLength)-1)")
         ctx.floor("intn/prefix-table", nsub, 3)
-        fl = ctx.func(B, "IntNStringReceiver.lengthLimitExceeded")
+        fl = _F(ctx, B, "IntNStringReceiver.lengthLimitExceeded")
         ctx.check(any(call_name(c) == "self.transport.loseConnection" for c in walk_local(fl) if isinstance(c, ast.Call)), "intn/limit-closes",
                   Q + "IntNStringReceiver.lengthLimitExceeded", "the default lengthLimitExceeded does not close the connection")
 
@@ -494,7 +508,7 @@ def _netstring(ctx):
                       f"the length pattern {bad[:3]}: a netstring length is a canonical decimal (no sign, no leading zero) followed by ':'")
     with ctx.section("netstring _extractLength"):
         # _extractLength boundary
-        f = ctx.func(B, "NetstringReceiver._extractLength")
+        f = _F(ctx, B, "NetstringReceiver._extractLength")
         g = ctx.cfg(f)
         q = Q + "NetstringReceiver._extractLength"
         p = f.args.args[1].arg
@@ -513,10 +527,10 @@ def _netstring(ctx):
         # digit-count pre-check can never reject a length <= MAX_LENGTH
     with ctx.section("netstring digit pre-check"):
         # ---- ns digit
-        fm = ctx.func(B, "NetstringReceiver._maxLengthSize")
+        fm = _F(ctx, B, "NetstringReceiver._maxLengthSize")
         rm = [x for x in walk_local(fm) if isinstance(x, ast.Return) and x.value is not None]
         ctx.need(len(rm) == 1, "single return in _maxLengthSize")
-        fc = ctx.func(B, "NetstringReceiver._checkStringSize")
+        fc = _F(ctx, B, "NetstringReceiver._checkStringSize")
         gc = ctx.cfg(fc)
         pc = fc.args.args[1].arg
         rzc = _raises(gc, "NetstringParseError")
@@ -535,7 +549,7 @@ def _netstring(ctx):
         # _payloadComplete / _consumePayload / _extractPayload
     with ctx.section("netstring _payloadComplete"):
         # ---- ns payloadComplete
-        fp = ctx.func(B, "NetstringReceiver._payloadComplete")
+        fp = _F(ctx, B, "NetstringReceiver._payloadComplete")
         rp = [x for x in walk_local(fp) if isinstance(x, ast.Return) and x.value is not None]
         ctx.need(len(rp) == 1, "single return in _payloadComplete")
         tbl = []
@@ -547,7 +561,7 @@ def _netstring(ctx):
                   f"_payloadComplete is not 'buffered + already consumed >= expected' (remaining, current, expected, result): {tbl[:2]}")
     with ctx.section("netstring _extractPayload"):
         # ---- ns extractPayload
-        fx = ctx.func(B, "NetstringReceiver._extractPayload")
+        fx = _F(ctx, B, "NetstringReceiver._extractPayload")
         gx = ctx.cfg(fx)
         qx = Q + "NetstringReceiver._extractPayload"
         wr = calls_with(gx, "self._payload.write")
@@ -593,7 +607,7 @@ def _netstring(ctx):
                               "after buffering an incomplete segment the size counter is not advanced by its length before _remainingData is emptied")
     with ctx.section("netstring _consumePayload"):
         # ---- ns consumePayload
-        fcp = ctx.func(B, "NetstringReceiver._consumePayload")
+        fcp = _F(ctx, B, "NetstringReceiver._consumePayload")
         gcp = ctx.cfg(fcp)
         qcp = Q + "NetstringReceiver._consumePayload"
         ext = call_nodes(gcp, "self._extractPayload")
@@ -619,14 +633,14 @@ def _netstring(ctx):
                       "the payload is delivered without checking the terminating comma", witness=gcp.describe(w))
     with ctx.section("netstring comma and payload"):
         # ---- ns comma
-        ftc = ctx.func(B, "NetstringReceiver._checkForTrailingComma")
+        ftc = _F(ctx, B, "NetstringReceiver._checkForTrailingComma")
         gtc = ctx.cfg(ftc)
         rzt = _raises(gtc, "NetstringParseError")
         R1 = reach_under(gtc, {"self._payload.getvalue()": b"ab,"})
         R2 = reach_under(gtc, {"self._payload.getvalue()": b"abc"})
         ctx.check(not (R1 & set(rzt)) and bool(R2 & set(rzt)) and gtc.exit not in R2, "netstring/comma-checked", Q + "NetstringReceiver._checkForTrailingComma",
                   "the byte after the payload is not required to be exactly ','")
-        fpp = ctx.func(B, "NetstringReceiver._processPayload")
+        fpp = _F(ctx, B, "NetstringReceiver._processPayload")
         okp = False
         for c in (x for x in walk_local(fpp) if isinstance(x, ast.Call) and call_name(x) == "self.stringReceived" and x.args):
             try:
@@ -636,7 +650,7 @@ def _netstring(ctx):
         ctx.check(okp, "netstring/payload-without-comma", Q + "NetstringReceiver._processPayload", "stringReceived does not get the payload without the trailing comma")
     with ctx.section("netstring _processLength"):
         # ---- ns processLength
-        fpl = ctx.func(B, "NetstringReceiver._processLength")
+        fpl = _F(ctx, B, "NetstringReceiver._processLength")
         okl = any(isinstance(x, ast.Assign) and src(x.targets[0]) == "self._expectedPayloadSize" and isinstance(x.value, ast.BinOp) and isinstance(x.value.op, ast.Add)
                   and ((call_name(x.value.left) == "self._extractLength" and const_value_is(x.value.right, lambda v: v == 1))
                        or (call_name(x.value.right) == "self._extractLength" and const_value_is(x.value.left, lambda v: v == 1)))
@@ -644,7 +658,7 @@ def _netstring(ctx):
         ctx.check(okl, "netstring/expected-size", Q + "NetstringReceiver._processLength", "the expected payload size is not 'announced length + 1' (payload and comma)")
     with ctx.section("netstring dataReceived"):
         # dataReceived: errors close, incomplete waits
-        fd = ctx.func(B, "NetstringReceiver.dataReceived")
+        fd = _F(ctx, B, "NetstringReceiver.dataReceived")
         gd = ctx.cfg(fd)
         qd = Q + "NetstringReceiver.dataReceived"
         dparam = fd.args.args[1].arg
@@ -669,12 +683,12 @@ def _netstring(ctx):
                 ctx.check(not (set(gd.reach([h], edge_ok=lambda a, b, l: l != "exc")) & set(hp)) and gd.path([h], cons, strict=True, edge_ok=lambda a, b, l: l != "exc") is None,
                           "netstring/incomplete-waits", qd + " | except IncompleteNetstring", "an incomplete netstring is treated as an error or spins instead of waiting for more data")
             ctx.check(bool(incs), "netstring/incomplete-waits", qd + " | handler", "IncompleteNetstring is not handled in dataReceived")
-        fh = ctx.func(B, "NetstringReceiver._handleParseError")
+        fh = _F(ctx, B, "NetstringReceiver._handleParseError")
         ctx.check(any(call_name(c) == "self.transport.loseConnection" for c in walk_local(fh) if isinstance(c, ast.Call)), "netstring/parse-error-closes",
                   Q + "NetstringReceiver._handleParseError", "_handleParseError does not close the connection")
     with ctx.section("netstring payload state reset"):
         # ---- ns prepare
-        fpr = ctx.func(B, "NetstringReceiver._prepareForPayloadConsumption")
+        fpr = _F(ctx, B, "NetstringReceiver._prepareForPayloadConsumption")
         gpr = ctx.cfg(fpr)
         need = [self_assigns(gpr, "_state", lambda v: src(v) == "self._PARSING_PAYLOAD"),
                 self_assigns(gpr, "_currentPayloadSize", lambda v: const_value_is(v, lambda x: x == 0 and x is not False)),
@@ -683,7 +697,7 @@ def _netstring(ctx):
                   "before a new payload the state, the size counter and the payload buffer are not all reset (the previous message leaks into the next)")
     with ctx.section("netstring writer"):
         # writer
-        ff = ctx.func(B, "_formatNetstring")
+        ff = _F(ctx, B, "_formatNetstring")
         rf = [x for x in walk_local(ff) if isinstance(x, ast.Return) and x.value is not None]
         ctx.need(len(rf) == 1, "single return in _formatNetstring")
         pw = ff.args.args[0].arg
@@ -696,7 +710,7 @@ def _netstring(ctx):
             if v != str(len(sample)).encode() + b":" + sample + b",":
                 badw.append((sample, v))
         ctx.check(not badw, "netstring/writer-format", Q + "_formatNetstring", f"_formatNetstring does not produce '<decimal length>:<data>,': {badw[:2]}")
-        fs = ctx.func(B, "NetstringReceiver.sendString")
+        fs = _F(ctx, B, "NetstringReceiver.sendString")
         sp_ = fs.args.args[1].arg
         ctx.check(any(call_name(c) == "self.transport.write" and c.args and src(c.args[0]) == f"_formatNetstring({sp_})" for c in walk_local(fs) if isinstance(c, ast.Call)),
                   "netstring/writer-format", Q + "NetstringReceiver.sendString", "sendString does not write _formatNetstring(string)")
@@ -1012,7 +1026,7 @@ def _reentrancy(ctx):
         cls = ctx.cls(B, "NetstringReceiver")
         from sa.source import methods as _methods
         helpers = {n for n, m in _methods(cls).items() if any(isinstance(c, ast.Call) and call_name(c) == "self.stringReceived" for c in walk_local(m))}
-        f = ctx.func(B, "NetstringReceiver._consumePayload")
+        f = _F(ctx, B, "NetstringReceiver._consumePayload")
         g = ctx.cfg(f)
         q = Q + "NetstringReceiver._consumePayload"
         outs = call_nodes(g, "self.stringReceived", *[f"self.{h}" for h in sorted(helpers)])
@@ -1112,8 +1126,11 @@ MUTANTS = [
            "                        line, rest = self._buffer.split(self.delimiter, 1)\n",
            more=[(B, "                        why = self.lineReceived(line)\n", "                        why = self.lineReceived(line)\n                        self._buffer = rest\n")],
            expect_rule="line/exactly-once"),
+    Mutant("line-only-keeps-first-piece", B, "        self._buffer = lines.pop(-1)\n", "        self._buffer = lines.pop(0)\n", expect_rule="line-only/"),
+    Mutant("line-only-starred-keeps-first-piece", B, "        lines = (self._buffer + data).split(self.delimiter)\n        self._buffer = lines.pop(-1)\n        for line in lines:\n",
+           "        self._buffer, *lines = (self._buffer + data).split(self.delimiter)\n        for line in lines:\n", expect_rule="line-only/"),
     Mutant("line-only-new-before-old", B, "        lines = (self._buffer + data).split(self.delimiter)", "        lines = (data + self._buffer).split(self.delimiter)",
-           expect_rule="line-only/buffer-order"),
+           expect_rule="line-only/segmentation-invariant"),
 ]
 SILENT = [
     Silent("line-only-threshold-respelled", B, _LO,
@@ -1138,5 +1155,11 @@ SILENT = [
            "            currentOffset = messageEnd\n            self._compatibilityOffset = currentOffset\n            self.stringReceived(packet)\n",
            "            currentOffset = messageEnd\n            self._unprocessed = alldata[currentOffset:]\n            self._compatibilityOffset = 0\n"
            "            self.stringReceived(packet)\n            alldata = self._unprocessed\n            currentOffset = 0\n"),
+    Silent("line-only-starred-unpacking", B, "        lines = (self._buffer + data).split(self.delimiter)\n        self._buffer = lines.pop(-1)\n        for line in lines:\n",
+           "        joined = self._buffer + data\n        *whole, self._buffer = joined.split(self.delimiter)\n        for line in whole:\n"),
+    Silent("line-only-last-piece-by-index", B, "        lines = (self._buffer + data).split(self.delimiter)\n        self._buffer = lines.pop(-1)\n        for line in lines:\n",
+           "        pieces = (self._buffer + data).split(self.delimiter)\n        self._buffer = pieces[-1]\n        for line in pieces[:-1]:\n"),
+    Silent("intn-send-length-computed-once", B, "        self.transport.write(pack(self.structFormat, len(string)) + string)",
+           "        size = len(string)\n        self.transport.write(pack(self.structFormat, size) + string)"),
     Silent("netstring-buffer-append-spelled-out", B, "        self._remainingData += data\n        while self._remainingData:", "        self._remainingData = self._remainingData + data\n        while self._remainingData:"),
 ]
